@@ -54,6 +54,12 @@ class VTUReader(VTKXMLReader):
             num_cells_with_given_type = len(indices)
             num_cell_type_corners = _num_corners(indices[0])
             assert num_cells_with_given_type > 0
+            if np.any(offsets[indices + 1] - offsets[indices] != num_cell_type_corners):
+                # cells with differing numbers of corners (e.g. polygons)
+                result = np.empty(num_cells_with_given_type, dtype=object)
+                for i, cell_idx in enumerate(indices):
+                    result[i] = corners[offsets[cell_idx] : offsets[cell_idx + 1]]
+                return result
             return corners[
                 np.linspace(
                     offsets[indices],
